@@ -31,6 +31,24 @@ CHECKS['C04'] = dict(
     design_ref='DESIGN.md 4/C04',
     note='Trusted: MIR = code (dev profile, overflow checks on); std builtins. Outside: non-termination, stack exhaustion, arbitrary 4 KiB text, token mutations of corpus files, exit status.',
     technique='symbolic execution of rustc MIR with z3 reachability queries on every panic site (bounded: statement shape, trip counts, template length)')
+CHECKS['C01'] = dict(
+    category='translation_validation',
+    text='Translation validation of the real translator + VM against a definitional evaluator written from the reference: ~120 program skeletons (12 families: operators, '
+         'nesting/operand order, short-circuit, select, data/selectors/in/is, functions and closures, copy/self, modules, map/filter/reduce over lists, tuples and strings, '
+         'ranges, statement sequences) are parsed by the real parser, their integer literals made symbolic (BitVec 64), compiled and run from MIR; on every path z3 decides '
+         'pc => binding == reference value for every binding, and that success/failure agree. Symbolic leaves cover all operand values per skeleton, which fixed-operand tests cannot.',
+    design_ref='DESIGN.md 4/C01',
+    note='Trusted: MIR = code; std builtins; the oracle (oracle/ucg_semantics.py), itself validated against the repo\'s integration tests. Outside: programs beyond the skeletons, regex operators, casts, '
+         'format text, import/include/out/convert, float rendering.',
+    technique='symbolic execution of rustc MIR vs definitional evaluator, z3 validity query per binding per path (bounded: skeleton structure)')
+CHECKS['C10'] = dict(
+    category='model_checking',
+    text='Scoping skeletons (parameters, format item, module bodies, later top-level bindings colliding with outer names) compared with the definitional evaluator over symbolic leaves; '
+         'every skeleton is additionally run cut at every statement boundary and z3 decides that each binding of the prefix has the same value in the full run (immutability); '
+         'every documented reserved word (list parsed from the reference) must be rejected as a binding name by the real parser or VM.',
+    design_ref='DESIGN.md 4/C10',
+    note='Trusted: MIR = code; std builtins; oracle evaluator; reserved-word list = reference/_index.md. Outside: programs beyond the skeletons; imports.',
+    technique='symbolic execution of rustc MIR; relational prefix/full check and oracle comparison decided by z3 (bounded: skeletons)')
 NOT_APPLICABLE = {
 }
 ALL = ['C%02d' % i for i in range(1, 21)]
